@@ -7,8 +7,8 @@ cd /verif
 IDS="$@"; [ -n "$IDS" ] || IDS=$(ls seeded)
 for id in $IDS; do
   pid=$(echo $id | cut -c1-3)
-  if ! git -C /repo apply --check seeded/$id/patch.diff 2>/dev/null; then echo "$id NOAPPLY"; continue; fi
-  git -C /repo apply seeded/$id/patch.diff
+  if ! git -C /repo apply --check /verif/seeded/$id/patch.diff 2>/dev/null; then echo "$id NOAPPLY"; continue; fi
+  git -C /repo apply /verif/seeded/$id/patch.diff
   out=$(./check $pid --tier quick --no-evidence 2>&1 | grep "SUMMARY" | sed 's/.*violations=\([0-9]*\).*harness_errors=\([0-9]*\).*wall=\(.*\)/violations=\1 harness_errors=\2 wall=\3/')
   git -C /repo checkout -- . ; rm -f /repo/cbi.log
   echo "$id $out"
